@@ -19,7 +19,7 @@ RULE = ("scenario = (history in {H1 USR2+TERM old, H2 USR2+QUIT old, H3 USR2+TER
         "H6 USR2+TERM old+USR2+TERM promoted}, bind in {tcp, unix}, worker class, signal timing); distinct = scenario tuple; every "
         "scenario is non-trivial (each has two masters alive under client load)")
 
-HISTORIES = ["H1", "H2", "H3", "H4", "H5", "H6"]
+HISTORIES = ["H1", "H2", "H3", "H4", "H5", "H6", "H8"]
 
 
 def read_pid(path):
@@ -88,7 +88,14 @@ def run_scenario(run, e4, sc):
     settings = {"graceful_timeout": 5, "timeout": 30}
     if wc == "gthread":
         settings["threads"] = 2
-    srv = e4.Server("c14", worker_class=wc, workers=nworkers, settings=settings, bind=sc["bind"])
+    app_source = None
+    if hist == "H8":
+        # the new master boots slowly (preloaded application that takes a while to import): the old master is told to
+        # stop before the new one is ready - the first to exit must still leave the sockets usable by the other
+        settings["preload_app"] = True
+        app_source = e4.APP_SOURCE.replace("import os, sys, time, signal, json\n",
+                                           "import os, sys, time, signal, json\nif os.environ.get('GUNICORN_PID'):\n    time.sleep(1.5)\n", 1)
+    srv = e4.Server("c14", worker_class=wc, workers=nworkers, settings=settings, bind=sc["bind"], app_source=app_source)
     pidfile = os.path.join(srv.dir, "u.pid")
     srv.write_conf(pidfile=pidfile)
     stop = threading.Event()
@@ -107,6 +114,41 @@ def run_scenario(run, e4, sc):
         time.sleep(sc["delay0"])
         # ---- USR2 -------------------------------------------------------------------------------
         srv.signal(signal.SIGUSR2, old)
+        if hist == "H8":
+            time.sleep(sc["delay1"])
+            srv.signal(signal.SIGTERM, old)
+            st = srv.wait_exit(old, 15)
+            if st is None:
+                v.append(("master-did-not-exit", "old master did not exit after TERM"))
+                return v, None, info
+            # the re-exec'd process is now our (subreaper's) child: find the master that announces itself
+            new = None
+            t0 = time.monotonic()
+            while time.monotonic() - t0 < 20 and new is None:
+                for e in srv.events():
+                    if e["kind"] == "when_ready" and e["pid"] != old and e4.alive(e["pid"]):
+                        new = e["pid"]
+                time.sleep(0.1)
+            if new is None:
+                v.append(("new-master-lost-the-sockets", "old master exited while the new one was still booting; no new master came up: %s" % (
+                    [ln for ln in srv.error_log().splitlines() if "ERROR" in ln or "Connection in use" in ln or "promoted" in ln][-4:])))
+                return v, None, info
+            run.count("upgrades_started")
+            run.count("first_exit_observed")
+            time.sleep(1.5)
+            single_master_state(e4, srv, new, nworkers, pidfile, v, "after-H8")
+            run.count("single_master_state_checks")
+            stop.set()
+            for t in threads:
+                t.join(15)
+            refused = [r for r in log if r["outcome"] in ("refused", "error")]
+            run.count("client_requests", len(log))
+            if refused:
+                v.append(("client-refused-during-upgrade", "%d of %d connection attempts failed (%s)" % (
+                    len(refused), len(log), refused[0].get("err") or refused[0]["outcome"])))
+            srv.signal(signal.SIGTERM, new)
+            srv.wait_exit(new, 10)
+            return v, None, info
         new = find_new_master(e4, srv, old, set(w_old))
         if new is None:
             err = srv.error_log()[-400:]
@@ -242,7 +284,7 @@ def main(tier, seed):
     run = Run(PROP, tier, seed, "exploration", RULE)
     run.require("scenarios", "upgrades_started", "both_live_pidfile_checks", "second_usr2_ignored_checks", "first_exit_observed",
                 "single_master_state_checks", "second_upgrade_works_checks", "client_requests", "bind/tcp", "bind/unix",
-                "history/H1", "history/H3", "history/H5", "history/H6")
+                "history/H1", "history/H3", "history/H5", "history/H6", "history/H8")
     shards = [{"scenario": sc, "seed": seed, "tier": tier} for sc in scenarios(tier, seed)]
     run.assumptions = [
         "the new master is identified as the live child of the old master that emitted when_ready and is not one of its workers",
